@@ -1,7 +1,7 @@
 #!/usr/bin/env python3
 """Confirm that seeded changes leave the baseline test-suite result unchanged.
 
-usage: seedsuite.py <resroot> <out.json> [-j N]
+usage: seedsuite.py <resroot> <out.json> [-j N] [--only K]   (--only 3: just <Cxx>/3)
   <resroot>/<Cxx>/<k>/patch.diff are the candidate changes (made by isolated sub-agents).
 The pinned suite takes ~9 CPU-minutes, so changes are grouped into batches that touch disjoint
 files; every batch is applied to its own scratch worktree of /repo HEAD and the pinned command of
@@ -56,9 +56,12 @@ def run_suite(tag, patches):
 def main():
     root, out = sys.argv[1], sys.argv[2]
     j = int(sys.argv[sys.argv.index('-j') + 1]) if '-j' in sys.argv else 6
+    only = sys.argv[sys.argv.index('--only') + 1] if '--only' in sys.argv else None
     cands = []
     for prop in sorted(p for p in os.listdir(root) if os.path.isdir(os.path.join(root, p))):
         for k in sorted(k for k in os.listdir(os.path.join(root, prop)) if os.path.isdir(os.path.join(root, prop, k))):
+            if only and k != only:
+                continue
             p = os.path.join(root, prop, k, 'patch.diff')
             if os.path.exists(p) and os.path.getsize(p) > 0 and os.path.exists(os.path.join(root, prop, k, 'meta.json')):
                 cands.append((f'{prop}/{k}', p, files_of(p)))
